@@ -152,6 +152,8 @@ class Assembly:
                         sections['subs'].append(t[len('//@sub '):]); cur = None
                     elif t.startswith('//@subre '):
                         sections['subs'].append('~' + t[len('//@subre '):]); cur = None
+                    elif t.startswith('//@guard '):
+                        sections.setdefault('guards', []).append(t[len('//@guard '):].strip()); cur = None
                     elif t.startswith('//@sigsub '):
                         sections['sigsubs'].append(t[len('//@sigsub '):]); cur = None
                     elif cur is not None:
@@ -207,8 +209,21 @@ class Assembly:
         for sub in sec['subs']:
             body, c = _apply_sub(sub, body, a['name'])
             log.append(('R4/R6/R9-R11 sub %s' % sub, c))
+        # //@guard "regex": the regex must not occur in the body OUTSIDE the text produced by the substitutions above - a proof hint that rides
+        # on a substitution is missing when the code reaches the same effect in another shape; that is undecided, never an alarm
+        residual = re.sub(re.escape(_VXL) + r'.*?' + re.escape(_VXR), ' ', body, flags=re.S)
+        for g in sec.get('guards', []):
+            gm = re.match(r'\s*"((?:[^"\\]|\\.)*)"\s*$', g)
+            if not gm:
+                raise Undecided('template error: bad //@guard %s' % g)
+            gpat = bytes(gm.group(1), 'utf-8').decode('unicode_escape')
+            hit = re.search(gpat, residual)
+            if hit:
+                raise Undecided('fn %s: `%s` occurs in a shape the contract\'s proof hints are not written for (guard /%s/)' % (a['name'], hit.group(0)[:60], gpat))
+        body = body.replace(_VXL, '').replace(_VXR, '')
         for sub in sec['sigsubs']:
             sig, c = _apply_sub(sub, sig, a['name'])
+            sig = sig.replace(_VXL, '').replace(_VXR, '')
             log.append(('R3/R4 sig-sub %s' % sub, c))
         sig = X.strip_attrs(sig)
         if sec.get('sig'):
@@ -422,6 +437,10 @@ def _derive_impls(text, kind, name, derives):
     return '\n'.join(out)
 
 
+# text produced by a logged substitution is bracketed by these (comment) markers until the guards have been evaluated
+_VXL, _VXR = '/*VX<*/', '/*>VX*/'
+
+
 def _apply_subre(sub, text, fname):
     """//@subre "regex" => "replacement with \\1.." [xN]: a counted regular-expression substitution (path / constructor resolution
     whose operands vary); the number of matches must be N (default 1)"""
@@ -433,7 +452,7 @@ def _apply_subre(sub, text, fname):
     found = re.findall(pat, text, flags=re.S)
     if m.group(3) != '*' and len(found) != int(m.group(3) or 1):
         raise Undecided('lost anchor in fn %s: /%s/ matches %d times, expected %s' % (fname, pat, len(found), m.group(3) or 1))
-    return re.sub(pat, rep, text, flags=re.S), len(found)
+    return re.sub(pat, lambda _m: _VXL + _m.expand(rep) + _VXR, text, flags=re.S), len(found)
 
 
 def _apply_sub(sub, text, fname):
@@ -462,7 +481,7 @@ def _apply_sub(sub, text, fname):
     cnt = len(found)
     if m.group(3) == '*':
         # `x*`: a pure path / constructor resolution applied wherever it occurs (any count, also none)
-        return rx.sub(lambda _m: new, text), cnt
+        return rx.sub(lambda _m: _VXL + new + _VXR, text), cnt
     want = int(m.group(3) or 1)
     if optional and cnt == 0:
         return text, 0      # a pure path-resolution substitution: nothing to resolve in this body
@@ -472,8 +491,8 @@ def _apply_sub(sub, text, fname):
         # `xN #k`: N occurrences expected, only the k-th (1-based) is replaced
         k = int(m.group(4))
         mm = found[k - 1]
-        return text[:mm.start()] + new + text[mm.end():], 1
-    return rx.sub(lambda _m: new, text), cnt
+        return text[:mm.start()] + _VXL + new + _VXR + text[mm.end():], 1
+    return rx.sub(lambda _m: _VXL + new + _VXR, text), cnt
 
 
 def _ws_free_regex(old):
@@ -491,10 +510,12 @@ def _ws_free_regex(old):
             word_prev = prev.isalnum() or prev == '_'
             word_ch = ch.isalnum() or ch == '_'
             # (a line comment counts as layout: a comment added inside a multi-line anchor does not lose it)
+            # (so do the markers that bracket the text of earlier substitutions)
+            mk = r'|/\*VX<\*/|/\*>VX\*/'
             if word_prev and word_ch:
-                out.append(r'(?:\s|//[^\n]*\n)+' if gap else '')
+                out.append((r'(?:\s|//[^\n]*\n' + mk + r')+') if gap else (r'(?:' + mk[1:] + r')*'))
             else:
-                out.append(r'(?:\s|//[^\n]*\n)*')
+                out.append(r'(?:\s|//[^\n]*\n' + mk + r')*')
         if ch in ')]}' and prev is not None and prev not in '([{,':
             out.append(r'(?:,\s*)?')     # rustfmt adds a trailing comma when it breaks an argument list over several lines
         out.append(re.escape(ch))
